@@ -24,7 +24,7 @@ ComposeRules == {
   R("compose", "date", "date7", "reject"), R("compose", "date", "date9", "reject"), R("compose", "date", "date_dashed", "reject"),
   R("compose", "date", "int", "reject"), R("compose", "date", "none", "reject"),
   R("compose", "id", "empty", "reject"), R("compose", "id", "nodate", "reject"), R("compose", "id", "none", "reject"),
-  R("compose", "id", "int", "reject"),
+  R("compose", "id", "int", "reject"), R("compose", "id", "variantid", "reject"),     \* a value valid for ANOTHER field called id
   R("compose", "respin", "strnum", "reject"), R("compose", "respin", "none", "reject"), R("compose", "respin", "float", "reject"),
   R("compose", "label", "label_ga", "reject"), R("compose", "label", "label_noversion", "reject"),
   R("compose", "label", "label_onepart", "reject"), R("compose", "label", "label_unknown", "reject"),
@@ -50,7 +50,9 @@ CiRules == ReleaseRules("ci.release") \cup
   R("ci.variant", "name", "empty", "reject"), R("ci.variant", "name", "none", "reject"), R("ci.variant", "name", "int", "reject"),
   R("ci.variant", "type", "unknown", "reject"), R("ci.variant", "type", "upper", "reject"), R("ci.variant", "type", "none", "reject"),
   R("ci.variant", "arches", "emptyset", "reject"), R("ci.variant", "arches", "none", "reject"),
-  R("ci.childvariant", "arches", "foreign", "reject") }
+  R("ci.childvariant", "arches", "foreign", "reject"),
+  \* a child UID that differs from <parent UID>-<id> only in dash placement
+  R("ci.childvariant", "uid", "dashvariant", "reject"), R("ci.childvariant", "uid", "doubledash", "reject") }
 ImageRules == {
   R("img.image", "path", "empty", "reject"), R("img.image", "path", "none", "reject"), R("img.image", "path", "int", "reject"),
   R("img.image", "mtime", "strnum", "coerce"), R("img.image", "mtime", "none", "reject"), R("img.image", "mtime", "float", "coerce"),
@@ -85,6 +87,8 @@ TiRules == {
   R("ti.variant", "name", "none", "na"),
   R("ti.childvariant", "uid", "misaligned", "reject"),
   R("ti.images", "image_paths", "absolute", "reject"), R("ti.images", "platforms", "unreferenced", "reject"),
+  R("ti.images", "platforms", "arch_unreferenced", "reject"),     \* images under the tree arch itself, arch missing from tree.platforms
+  R("ti.childvariant", "uid", "dashvariant", "na"),
   R("ti.stage2", "mainimage", "absolute", "reject"), R("ti.stage2", "mainimage", "int", "na"),
   R("ti.stage2", "instimage", "absolute", "reject"),
   R("ti.media", "discnum", "str", "reject"), R("ti.media", "discnum", "float", "na"),
@@ -127,7 +131,7 @@ Cases == {[sample |-> s, node |-> i, label |-> Nodes[s][i].label, kind |-> r[1],
 \* ---- document-level corruptions (C07): header type swap, mangled version, deleted required key / section
 Types == [composeinfo |-> "productmd.composeinfo", images |-> "productmd.images", rpms |-> "productmd.rpms",
           modules |-> "productmd.modules", extra_files |-> "productmd.extra_files", treeinfo |-> "productmd.treeinfo"]
-Mangled == {"nonnumeric", "onepart", "threepart", "empty", "null", "float", "trailing_x", "negative"}
+Mangled == {"nonnumeric", "onepart", "threepart", "empty", "null", "float", "trailing_x", "negative", "valid_elsewhere"}
 Req(f, P) == {<<f, p>> : p \in P}
 ComposeReq == {"payload", "payload/compose", "payload/compose/id", "payload/compose/type", "payload/compose/date", "payload/compose/respin"}
 Required ==
